@@ -108,6 +108,89 @@ theorem idle_leaf_answers_at_once (k : Nat) :
   unfold G.send G.blocks G.waits G.anyIds
   simp [G.new]
 
+
+/-! ### the same at the granularity of the atomic steps (`GI`): Dec / Load / body are separate steps
+of a stage's completion, and any other stage's steps may fall between them -/
+
+/-- the collect channel is closed at most once for EVERY sequence of atomic steps -/
+theorem leaf_close_at_most_once_interleaved (known : Nat → Nat → Bool) (w : WaitOn) (k : Nat) (evs : List EvI) :
+    ((GI.new k).run known w evs).g.closes ≤ 1 := by
+  have h0 : InvCloseI (GI.new k) := by
+    refine ⟨?_, by simp [GI.new, G.new]⟩
+    dsimp only [GI.new, G.new]
+    by_cases hk : k = 0
+    · left; exact ⟨hk, rfl⟩
+    · right; refine ⟨by omega, Or.inl ⟨?_, ?_, rfl⟩⟩ <;> omega
+  have hrun : ∀ (evs : List EvI) (s : GI), InvCloseI s → InvCloseI (s.run known w evs) := by
+    intro evs
+    induction evs with
+    | nil => intro s h; exact h
+    | cons e es ih => intro s h; exact ih _ (invCloseI_step e h)
+  obtain ⟨h, _⟩ := hrun evs _ h0
+  rcases h with ⟨_, hc⟩ | ⟨_, hI⟩
+  · omega
+  · rcases hI with ⟨_, _, hc⟩ | ⟨_, hc⟩ <;> omega
+
+/-- for EVERY interleaving of the stages' atomic steps the leaf never answers with its deadline -/
+theorem leaf_never_waits_for_deadline_interleaved (known : Nat → Nat → Bool) (k : Nat) (evs : List EvI)
+    (hv : ValidI known .hasIDs (GI.new k) evs) :
+    ((GI.new k).run known .hasIDs evs).g.answer ≠ some .deadline :=
+  (invI_run evs _ (invI_new known k) hv).ans
+
+/-- ... and when the callback runs it answers ok with the complete dictionary -/
+theorem leaf_answers_when_pipeline_completes_interleaved (known : Nat → Nat → Bool) (k : Nat) (evs : List EvI)
+    (hv : ValidI known .hasIDs (GI.new k) (evs ++ [.send]))
+    (hnone : ((GI.new k).run known .hasIDs evs).g.answer = none) :
+    let s := (GI.new k).run known .hasIDs (evs ++ [.send])
+    s.g.answer = some .ok ∧ s.g.maps = mapsFrom known 0 s.g.ids := by
+  intro s
+  obtain ⟨hv1, hv2⟩ := validI_append evs [.send] _ hv
+  have hI := invI_run evs _ (invI_new known k) hv1
+  have hsend : EvI.allowed ((GI.new k).run known .hasIDs evs) .send = true := by
+    have : EvI.allowed ((GI.new k).run known .hasIDs evs) .send = true ∧ True := by
+      simpa [ValidI, validI] using hv2
+    exact this.1
+  have hs : s = ((GI.new k).run known .hasIDs evs).step known .hasIDs .send := by
+    show (GI.new k).run known .hasIDs (evs ++ [.send]) = _
+    rw [runI_append]; rfl
+  generalize (GI.new k).run known .hasIDs evs = s0 at hI hsend hnone hs
+  have hp : s0.g.pending = 0 ∧ s0.ndec = 0 ∧ s0.nload0 = 0 := by
+    have : (s0.g.pending = 0 ∧ s0.ndec = 0) ∧ s0.nload0 = 0 := by simpa [EvI.allowed] using hsend
+    exact ⟨this.1.1, this.1.2, this.2⟩
+  have hnb : s0.g.blocks .hasIDs = false := by
+    unfold G.blocks G.waits
+    cases hany : s0.g.anyIds with
+    | false => simp
+    | true =>
+      rcases hI.wait hany with h | h | h | h | h
+      · omega
+      · simp [h]
+      · rw [hnone] at h; simp at h
+      · omega
+      · omega
+  have hm : s0.g.maps = mapsFrom known 0 s0.g.ids := by
+    rcases hI.maps hp.1 with h | h | h | h
+    · rw [hnone] at h; simp at h
+    · exact h
+    · omega
+    · omega
+  clear_value s
+  subst hs
+  simp only [GI.step]
+  unfold G.send
+  rw [hnone]
+  simp only [Option.isSome_none, Bool.false_eq_true, if_false, hnb]
+  constructor <;> first | trivial | rfl | exact hm
+
+/-- non-vacuity: two stages; the first one's Dec / Load / body are spread over the second one's fork,
+id collection and completion; a stale body runs last -/
+example :
+    let known : Nat → Nat → Bool := fun _ _ => true
+    let evs : List EvI := [.spawn, .dec, .load, .spawn, .ids [3], .body none, .dec, .load, .body none, .send]
+    let s := (GI.new 1).run known .hasIDs evs
+    ValidI known .hasIDs (GI.new 1) evs ∧ s.g.answer = some .ok ∧ s.g.closes = 1 ∧ s.g.maps = [some [3]] := by
+  decide
+
 namespace Neg
 
 /-- The rewrite "wait whenever the query has GROUP BY": the same idle leaf sits in the `select`
